@@ -12,7 +12,7 @@ from openapi_python_client.parser.properties import Parameters, Schemas
 
 CFG_FIRST = Config.from_sources(ConfigFile(post_hooks=[]), MetaType.NONE, Path("doc.json"), "utf-8", True, None)
 CFG_ALL = Config.from_sources(ConfigFile(post_hooks=[], generate_all_tags=True), MetaType.NONE, Path("doc.json"), "utf-8", True, None)
-TAGSETS = (None, ["alpha"], ["beta", "alpha"], ["alpha", "gamma tag"])
+TAGSETS = (None, ["alpha"], ["beta", "alpha"], ["alpha", "gamma tag"], [])
 OPS = (("/a", "get"), ("/a", "post"), ("/b/x", "get"))
 
 
@@ -85,7 +85,7 @@ def _accounting(present, fails, tags, all_tags) -> bool:
 
 def accounting_tags(f0: bool, f1: bool, f2: bool, t0: int, t1: int, all_tags: bool) -> bool:
     """
-    pre: 0 <= t0 < 4 and 0 <= t1 < 4
+    pre: 0 <= t0 < 5 and 1 <= t1 < 5
     post: _
     """
     return _accounting([True, True, True], [f0, f1, f2], [t0, t1, 2], all_tags)
